@@ -74,7 +74,7 @@ impl Roundable for i128 {
     }
 
     fn compare_remainder(dividend: Self, divisor: Self) -> Option<Ordering> {
-        Some((dividend.abs() % divisor).cmp(&(divisor / 2)))
+        Some(((dividend.abs() % divisor) * 2).cmp(&divisor))
     }
 
     fn is_even_cardinal(dividend: Self, divisor: Self) -> bool {
